@@ -80,6 +80,8 @@ pub fn lark_items() -> Vec<Item> {
         lark("lazy-greedy", "start: hd \"=x\" | TEXT\nTEXT: /[a-z<]*/\nhd[lazy]: TEXT \"<f\"", &["ab<f=x", "ab<fx"]),
         lark("brave", "start: normal | brave\nnormal: /[a-z ]*/\nbrave: \"call(q=\" JSON_STRING \")\"\nJSON_CHAR: /(\\\\([\\\"\\\\\\/bfnrt]|u[a-fA-F0-9]{4})|[^\\\"\\\\\\x00-\\x1F\\x7F])/\nJSON_STRING: \"\\\"\" JSON_CHAR* \"\\\"\"", &["call(q=\"ab\\n\")", "hello a"]),
         lark("think", "start: /(.|\\n)*/ \"</t>\" addr\naddr: %json {\"type\":\"object\",\"properties\":{\"zip\":{\"type\":\"number\"}},\"required\":[\"zip\"],\"additionalProperties\":false}", &["hm\n</t>{\"zip\":12}"]),
+        lark("and-alt", "start: W | N\nW: /[a-z]+/ & ~/.*bb.*/\nN: /[0-9]+/ & /[0-9]*[05]/", &["abab", "125"]),
+        lark("and-seq", "start: \"<\" (W | N) \">\"\nW: /[ab]{1,3}/ & /a.*/\nN: /[0-9]{2}/ & ~/1./", &["<ab>", "<25>"]),
         lark("mutual", "start: a\na: \"x\" b | \"y\"\nb: \"z\" a | \"w\"", &["xzxzy", "xw"]),
     ]
 }
